@@ -48,6 +48,14 @@ Fixed == {
   [name |-> "value_in_void_fn", bad |-> <<"flt = fn() { return 5 }" \o M>>, good |-> <<"flt = fn() { n = 5 }">>],
   [name |-> "missing_return_path", bad |-> <<"flt = fn() -> int { if true { return 1 } }" \o M>>,
                                    good |-> <<"flt = fn() -> int { if true { return 1 } return 2 }">>],
+  [name |-> "missing_return_else", bad |-> <<"flt = fn(c: bool) -> int { if c { return 1 } else { k9 = 2 } }" \o M>>,
+                                   good |-> <<"flt = fn(c: bool) -> int { if c { return 1 } else { return 2 } }">>],
+  [name |-> "missing_return_elif", bad |-> <<"flt = fn(c: int) -> int { if c == 1 { return 1 } else if c == 2 { k9 = 2 } else { return 3 } }" \o M>>,
+                                   good |-> <<"flt = fn(c: int) -> int { if c == 1 { return 1 } else if c == 2 { return 2 } else { return 3 } }">>],
+  [name |-> "missing_return_if_arm", bad |-> <<"flt = fn(c: bool) -> int { if c { k9 = 2 } else { return 1 } }" \o M>>,
+                                     good |-> <<"flt = fn(c: bool) -> int { if c { k9 = 2 } else { return 1 } return 3 }">>],
+  [name |-> "missing_return_while", bad |-> <<"flt = fn(c: bool) -> int { while c { return 1 } }" \o M>>,
+                                    good |-> <<"flt = fn(c: bool) -> int { while c { return 1 } return 2 }">>],
   [name |-> "cond_if", bad |-> <<"if 5 { flt = 1 }" \o M>>, good |-> <<"if true { flt = 1 }">>],
   [name |-> "cond_if_str", bad |-> <<"if \"s\" { flt = 1 }" \o M>>, good |-> <<"if true { flt = 1 }">>],
   [name |-> "cond_while", bad |-> <<"while 5 { break }" \o M>>, good |-> <<"while true { break }">>],
